@@ -140,16 +140,12 @@ static void sasl_auth(bool sasl2)
     }
     setAttr(el, QStringLiteral("mechanism"), pick(TB_MECH, mech));
     w.q->handleStanza(el);
-    unsigned lvl = vp_case_u(4, 4);
-    if (lvl == 1) return;
     noAuthEffect(w, "C16 an <auth/> request alone never authenticates, binds or routes");
-    if (lvl == 2) return;
     const unsigned K_FAIL = sasl2 ? K_SASL2_FAILURE : K_SASL_FAILURE, K_CHAL = sasl2 ? K_SASL2_CHALLENGE : K_SASL_CHALLENGE;
     if (mech == M_PLAIN) {
         const unsigned ref = vp_c16_plain_ref(&raw, &w.checker.user, &w.checker.password);   // RFC 4616 reference parse
         if (ref & 1) {
             vp_assert(w.checker.nCheck == 1 && w.checker.nDigest == 0, "C16 PLAIN: the password checker is asked exactly once");
-            if (lvl == 3) return;
             vp_assert(ref == 7 && eq(w.checker.domain, w.domain), "C16 PLAIN: the checker is asked for exactly the user, password and domain presented");
             vp_assert(w.d->saslServer && eq(w.d->saslServer->username(), w.checker.user), "C16 PLAIN: the pending exchange remembers the user the checker was asked about");
             vp_assert(vp_c16_sent_n() == 0 && vp_c16_ndisconnect() == 0, "C16 PLAIN: no answer before the checker replies");
@@ -180,4 +176,193 @@ extern "C" void h_sasl_nochecker()
     w.q->handleStanza(el);
     noAuthEffect(w, "C16 without a password checker nobody is authenticated");
     vp_assert(failedAndClosed(nsi == 0 ? K_SASL_FAILURE : K_SASL2_FAILURE), "C16 without a password checker every SASL element is answered with <failure/> and the stream is closed");
+}
+
+// ---- pre-states with a pending SASL exchange --------------------------------------------------------------------------------------
+static QString asciiString(int maxlen, bool nonEmpty = false)
+{
+    QString s = nonEmpty ? vpSymStringNonEmpty(maxlen) : vpSymString(maxlen);
+    for (int i = 0; i < maxlen; i++) if (i < s.size()) vp_assume(s.at(i).unicode() < 0x80 && s.at(i).unicode() != 0);
+    return s;
+}
+static QString cat3(const QString &a, char16_t ch, const QString &b) { QString r; vp_c16_concat(&r, &a, ch, &b); return r; }
+// installs a SASL server object of the given mechanism (real QXmppSaslServer::create) with an arbitrary recorded user name
+static QXmppSaslServer *installServer(World &w, unsigned mech, const QString &user)
+{
+    w.d->saslServer = QXmppSaslServer::create(pick(TB_MECH, mech), w.q);
+    QXmppSaslServer *s = w.d->saslServer.get();
+    s->setRealm(w.domain); s->setUsername(user);
+    return s;
+}
+static void sasl2Pending(World &w, bool bind, const QString &tag)
+{
+    w.d->saslVersion = QXmppIncomingClientPrivate::Sasl2;
+    w.d->sasl2AuthRequest = Sasl2::Authenticate();
+    if (bind) { Bind2Request b; b.tag = tag; w.d->sasl2AuthRequest->bindRequest = b; }
+}
+
+// (6) the password checker answers a PLAIN request.  VP_CASE bit0: SASL2, bit1: with inline bind, bit2: bind tag non-empty
+extern "C" void h_password_reply()
+{
+    World w(2);
+    const bool sasl2 = vp_case_bool(0), bind = sasl2 && vp_case_bool(1);
+    const QString user = asciiString(3);
+    const QString tag = vp_case_bool(2) ? asciiString(2, true) : QString();
+    auto *srv = static_cast<QXmppSaslServerPlain *>(installServer(w, M_PLAIN, user)); srv->m_step = 1;
+    if (sasl2) sasl2Pending(w, bind, tag);
+    auto *reply = new QXmppPasswordReply; vp_c16_set_class(reply, &QXmppPasswordReply::staticMetaObject);
+    unsigned err = vp_u8(); vp_assume(err <= 2);
+    reply->setError(QXmppPasswordReply::Error(err));
+    vp_qobject_set_sender(reply);
+    w.q->onPasswordReply();
+    vp_assert(w.count(SIG_ELEMENT) == 0, "C16 a checker reply routes nothing");
+    vp_assert(vp_qobject_delete_later(reply), "C16 the reply object is released");
+    if (err == QXmppPasswordReply::NoError) {
+        const QString bare = cat3(user, u'@', w.domain);
+        if (!bind) {
+            vp_assert(eq(w.d->jid, bare), "C16 an approved exchange authenticates exactly the user the checker was asked about");
+            vp_assert(eq(w.d->resource, w.resource0) && w.count(SIG_CONNECTED) == 0, "C16 authentication alone binds no resource");
+        } else {
+            vp_assume(QXmppUtils::jidToBareJid(bare) == bare);   // the approved account name contains no '/' (not a valid localpart, RFC 7622)
+            vp_assert(vp_c16_concat_eq(&w.d->jid, &bare, '/', &w.d->resource) && !w.d->resource.isEmpty(), "C16 inline bind: the address is the approved user plus the new resource");
+            vp_assert(w.count(SIG_CONNECTED) == 1, "C16 inline bind announces the connection once");
+        }
+        vp_assert(vp_c16_ndisconnect() == 0 && vp_c16_sent_n() == 1 && vp_c16_sent_kind(0) == (sasl2 ? K_SASL2_SUCCESS : K_SASL_SUCCESS), "C16 success is reported to the client");
+    } else {
+        vp_assert(eq(w.d->jid, w.jid0) && eq(w.d->resource, w.resource0) && w.count(SIG_CONNECTED) == 0, "C16 a refused or failed check leaves the connection as it was (unauthenticated stays unauthenticated)");
+        vp_assert(failedAndClosed(sasl2 ? K_SASL2_FAILURE : K_SASL_FAILURE), "C16 a refused or failed check is answered with <failure/> and the stream is closed");
+    }
+}
+// (7) a finished() signal that does not come from a password reply has no effect
+extern "C" void h_reply_foreign_sender()
+{
+    World w(2);
+    installServer(w, M_PLAIN, asciiString(2));
+    vp_qobject_set_sender(vp_bool() ? static_cast<QObject *>(w.q) : nullptr);
+    if (vp_bool()) w.q->onPasswordReply(); else w.q->onDigestReply();
+    noAuthEffect(w, "C16 only a password reply can complete an exchange");
+    vp_assert(vp_c16_sent_n() == 0, "C16 nothing is sent for a foreign finished() signal");
+}
+
+// (8) <response/> (SASL or SASL2) in an arbitrary exchange state.  VP_CASE bits 0-2: server kind/step, bit 3: SASL2
+enum { R_NONE, R_PLAIN0, R_PLAIN1, R_ANON1, R_DIGEST0, R_DIGEST1, R_DIGEST2, R_DIGEST3, NRESP };
+static void setDigestInput(unsigned slot, const QByteArray &v, bool present = true) { vp_c16_digest_input(slot, &v, present); }
+enum { D_REALM, D_URI, D_QOP, D_USER, D_NC, D_CNONCE, D_RESPONSE, D_NONCE };
+struct DigestMsg {
+    QByteArray realm, uri, qop, user, nc, cnonce, response;
+    void build()
+    {
+        realm = asciiBytes(1); uri = asciiBytes(1); nc = asciiBytes(1); cnonce = asciiBytes(1); user = asciiBytes(2);
+        qop = vp_bool() ? QByteArray("auth") : asciiBytes(2);
+        response = vpSymBytes(4);
+        setDigestInput(D_REALM, realm); setDigestInput(D_URI, uri); setDigestInput(D_QOP, qop); setDigestInput(D_USER, user);
+        setDigestInput(D_NC, nc); setDigestInput(D_CNONCE, cnonce); setDigestInput(D_RESPONSE, response);
+    }
+};
+static QByteArray md5(const QByteArray &d) { return QCryptographicHash::hash(d, QCryptographicHash::Md5); }
+static QByteArray catB(std::initializer_list<QByteArray> parts) { QByteArray r; for (const auto &p : parts) r.append(p); return r; }
+// RFC 2831 2.1.2.1: response-value = HEX(KD(HEX(H(A1)), nonce ":" nc ":" cnonce ":" qop ":" HEX(H(A2)))), A1 = secret ":" nonce ":" cnonce, A2 = "AUTHENTICATE:" digest-uri
+static QByteArray refDigest(const QByteArray &uri, const QByteArray &secret, const QByteArray &nonce, const QByteArray &cnonce, const QByteArray &nc)
+{
+    QByteArray ha1 = md5(catB({ secret, ":", nonce, ":", cnonce })).toHex();
+    QByteArray ha2 = md5(catB({ QByteArray("AUTHENTICATE"), ":", uri })).toHex();
+    return md5(catB({ ha1, ":", nonce, ":", nc, ":", cnonce, ":auth:", ha2 })).toHex();
+}
+extern "C" void h_sasl_response()
+{
+    World w(2);
+    const unsigned st = vp_case_u(0, NRESP); const bool sasl2 = vp_case_bool(3);
+    const QString user = asciiString(2);
+    QXmppSaslServer *srv = nullptr;
+    if (st == R_PLAIN0 || st == R_PLAIN1) { srv = installServer(w, M_PLAIN, user); static_cast<QXmppSaslServerPlain *>(srv)->m_step = st == R_PLAIN0 ? 0 : 1; }
+    if (st == R_ANON1) { srv = installServer(w, M_ANON, user); static_cast<QXmppSaslServerAnonymous *>(srv)->m_step = 1; }
+    DigestMsg msg;
+    if (st >= R_DIGEST0) {
+        srv = installServer(w, M_DIGEST, user); static_cast<QXmppSaslServerDigestMd5 *>(srv)->m_step = int(st - R_DIGEST0);
+        msg.build();
+        if (vp_bool()) srv->setPasswordDigest(vpSymBytes(2));   // arbitrary: a digest may be left over from an earlier round
+    }
+    if (sasl2) sasl2Pending(w, false, QString());
+    QByteArray raw = asciiBytes(4); vp_assume(!raw.isEmpty());
+    QDomElement el = mkElement(QStringLiteral("response"), sasl2 ? ns_sasl_2.toString() : ns_sasl.toString()); setB64Text(el, raw);
+    w.q->handleStanza(el);
+    vp_assert(w.count(SIG_ELEMENT) == 0 && w.count(SIG_CONNECTED) == 0 && eq(w.d->resource, w.resource0), "C16 a <response/> never routes and never binds");
+    if (st == R_DIGEST2) {
+        // step 2 is only reached through a verified response (h_digest_reply); the final empty round completes the exchange
+        vp_assert(eq(w.d->jid, cat3(user, u'@', w.domain)), "C16 DIGEST-MD5: the verified user becomes the authenticated address");
+        vp_assert(vp_c16_ndisconnect() == 0 && vp_c16_sent_n() == 1 && vp_c16_sent_kind(0) == (sasl2 ? K_SASL2_SUCCESS : K_SASL_SUCCESS), "C16 DIGEST-MD5: success is reported");
+    } else {
+        vp_assert(eq(w.d->jid, w.jid0), "C16 a <response/> authenticates only in the final round of a verified DIGEST-MD5 exchange");
+        vp_assert(vp_c16_sent_n() == 0 || vp_c16_sent_kind(0) != (sasl2 ? K_SASL2_SUCCESS : K_SASL_SUCCESS), "C16 no <success/> without authentication");
+    }
+    if (st == R_NONE || st == R_PLAIN1 || st == R_ANON1 || st == R_DIGEST3) vp_assert(failedAndClosed(sasl2 ? K_SASL2_FAILURE : K_SASL_FAILURE), "C16 a <response/> outside an exchange is answered with <failure/> and the stream is closed");
+    if (st == R_DIGEST1 && w.checker.nDigest == 1) {
+        const QString u = QString::fromUtf8(msg.user);
+        vp_assert(eq(w.checker.user, u) && eq(w.checker.domain, w.domain) && eq(srv->username(), u), "C16 DIGEST-MD5: the checker is asked for the digest of exactly the user named in the response");
+    }
+    vp_assert(w.checker.nCheck + w.checker.nDigest <= 1, "C16 at most one request to the checker per element");
+}
+
+// (9) the password checker delivers the stored digest for a pending DIGEST-MD5 response.  VP_CASE bit0: SASL2
+extern "C" void h_digest_reply()
+{
+    World w(2);
+    const bool sasl2 = vp_case_bool(0);
+    const QString user0 = asciiString(2);
+    auto *srv = static_cast<QXmppSaslServerDigestMd5 *>(installServer(w, M_DIGEST, user0)); srv->m_step = 1;
+    DigestMsg msg; msg.build();
+    if (sasl2) sasl2Pending(w, false, QString());
+    auto *reply = new QXmppPasswordReply; vp_c16_set_class(reply, &QXmppPasswordReply::staticMetaObject);
+    unsigned err = vp_u8(); vp_assume(err <= 2);
+    reply->setError(QXmppPasswordReply::Error(err));
+    const QByteArray stored = vpSymBytes(2);
+    reply->setDigest(stored);
+    reply->setProperty("__sasl_raw", QByteArray("x"));
+    vp_qobject_set_sender(reply);
+    const QByteArray nonce = srv->m_nonce;
+    w.q->onDigestReply();
+    noAuthEffect(w, "C16 DIGEST-MD5: the digest reply alone never authenticates, binds or routes");
+    const unsigned K_FAIL = sasl2 ? K_SASL2_FAILURE : K_SASL_FAILURE, K_CHAL = sasl2 ? K_SASL2_CHALLENGE : K_SASL_CHALLENGE;
+    if (err == QXmppPasswordReply::TemporaryError) {
+        vp_assert(srv->m_step == 1 && failedAndClosed(K_FAIL), "C16 DIGEST-MD5: a temporary checker failure ends the exchange");
+    } else {
+        const bool ok = msg.qop == QByteArray("auth") && !stored.isEmpty() && msg.response == refDigest(msg.uri, stored, nonce, msg.cnonce, msg.nc);
+        vp_assert((srv->m_step == 2) == ok && (srv->m_step == 1) == !ok, "C16 DIGEST-MD5: the exchange advances iff the response equals the RFC 2831 digest over the stored secret and the server nonce");
+        vp_assert(ok ? (vp_c16_sent_n() == 1 && vp_c16_sent_kind(0) == K_CHAL && vp_c16_ndisconnect() == 0) : failedAndClosed(K_FAIL), "C16 DIGEST-MD5: wrong response is answered with <failure/> and the stream is closed");
+        if (ok) vp_assert(eq(srv->username(), QString::fromUtf8(msg.user)), "C16 DIGEST-MD5: the verified user is the one named in the response");
+    }
+}
+
+// (10) <abort xmlns=sasl2/> and anything else in the SASL namespaces
+extern "C" void h_sasl_misc()
+{
+    World w(2);
+    unsigned nsi = vp_u8(), tagi = vp_u8(); vp_assume(nsi < 2 && tagi >= 2 && tagi < 5 && !(tagi == 3 && nsi == 1));   // abort | authenticate@sasl | success
+    installServer(w, M_PLAIN, asciiString(2)); static_cast<QXmppSaslServerPlain *>(w.d->saslServer.get())->m_step = 1;
+    sasl2Pending(w, false, QString());
+    QDomElement el = mkElement(pick(TB_STAG, tagi), pick(TB_NS, nsi));
+    w.q->handleStanza(el);
+    noAuthEffect(w, "C16 <abort/> and unknown SASL elements never authenticate, bind or route");
+    vp_assert(w.checker.nCheck + w.checker.nDigest == 0, "C16 <abort/> and unknown SASL elements never reach the checker");
+    vp_assert(vp_c16_sent_n() == ((tagi == 2 && nsi == 1) ? 1u : 0u), "C16 only <abort xmlns=sasl2/> is answered");
+    if (vp_c16_sent_n() == 1) vp_assert(vp_c16_sent_kind(0) == K_SASL2_FAILURE, "C16 <abort/> is answered with <failure/>");
+}
+
+// (11) default QXmppPasswordChecker::checkPassword on top of getPassword(): approved iff the stored password was found and is equal
+struct StoreChecker final : QXmppPasswordChecker {
+    QXmppPasswordReply::Error err; QString secret, askedUser, askedDomain; unsigned n = 0;
+    QXmppPasswordReply::Error getPassword(const QXmppPasswordRequest &r, QString &password) override { n++; askedUser = r.username(); askedDomain = r.domain(); if (err == QXmppPasswordReply::NoError) password = secret; return err; }
+    bool hasGetPassword() const override { return true; }
+};
+extern "C" void h_checker_default()
+{
+    vpC16Warm();
+    StoreChecker c; unsigned e = vp_u8(); vp_assume(e <= 2); c.err = QXmppPasswordReply::Error(e); c.secret = vpSymString(2);
+    QXmppPasswordRequest req; const QString u = vpSymString(2), p = vpSymString(2), dom = vpSymString(1);
+    req.setUsername(u); req.setPassword(p); req.setDomain(dom);
+    QXmppPasswordReply *reply = c.QXmppPasswordChecker::checkPassword(req);
+    vp_assert(c.n == 1 && eq(c.askedUser, u) && eq(c.askedDomain, dom), "C16 default checker looks up exactly the requested user and domain");
+    vp_assert((reply->error() == QXmppPasswordReply::NoError) == (e == QXmppPasswordReply::NoError && eq(p, c.secret)), "C16 default checker approves iff the stored password exists and equals the given one");
+    if (e != QXmppPasswordReply::NoError) vp_assert(reply->error() == c.err, "C16 default checker passes lookup errors on");
+    vp_assert(!reply->isFinished(), "C16 the reply finishes later (asynchronously)");
 }
